@@ -14,7 +14,7 @@ Termination of the parser proper and the values read are not decided.
 import re
 
 from . import panicbudget, progress, scopes
-from .core import AnchorLost, hir_calls, pat_leaves, pat_variant, short, walk
+from .core import AnchorLost, hir_calls, pat_leaves, pat_variant, short, walk, res_name
 
 EXPLANATION = (
     "RF5 panic budget: constructs are enumerated from the MIR call/assert facts (after macro "
@@ -71,6 +71,9 @@ def run(ctx, R):
     sc = scopes.reader_scope(F)
     R.floor("reader bodies in scope", len(sc), 100)
     panicbudget.check(F, R, "C17:panic-budget", "c17_reader", sc, 20)
+    reduce_term_guards(F, R)
+    functor_arity_checked(F, R)
+    end_of_input_and_bad_bytes_in_the_lexer(F, R)
 
     # ---- progress ---------------------------------------------------------------------------------------------
     entry, local_bad, edges, counts = progress.analyse(F)
@@ -257,3 +260,180 @@ def consuming_reads(F, R, pid):
     bad = [c for c in callers if re.search(r"peek", c)]
     R.ob("%s:open_parsing_stream:callers-are-consuming-reads" % pid, not bad and len(callers) >= 3,
          "callers of open_parsing_stream: %s (a peek_* builtin must not go through it: it skips input on error)" % callers, F.where(ops[0]))
+
+
+def reduce_term_guards(F, R):
+    """The panic budget counts the indexing and unsigned subtractions of the parser; it cannot see a guard that was
+    weakened. Parser::reduce_term turns `name ( a1, .., an )` on its two stacks into one term: it subtracts the arity
+    from the lengths of the stacks and indexes just below the arguments (the functor). Each such access needs
+    len >= arity-expression + offset, and the early returns in front of it must establish exactly that (linear forms
+    c0 + c1*arity, compared component by component)."""
+    fn = [p for p in F.items if p.endswith("Parser::<'a, R>::reduce_term") or p.endswith("::reduce_term")]
+    fn = [p for p in fn if F.items[p]["file"] == "src/parser/parser.rs"]
+    if len(fn) != 1:
+        raise AnchorLost("Parser::reduce_term (%d)" % len(fn))
+    body = F.hir(fn[0])["body"]
+
+    def lin(e):
+        k = e.get("k")
+        if k in ("Paren", "DropTemps", "Cast") and ("e" in e or "a" in e):
+            return lin(e.get("e") or e.get("a"))
+        if k == "Lit" and "int" in (e.get("lit") or {}):
+            return (int(e["lit"]["int"]), 0)
+        if k == "Path" and res_name(e) == "arity":
+            return (0, 1)
+        if k == "Binary" and e.get("op") in ("Add", "Sub", "Mul"):
+            a, b = lin(e["a"]), lin(e["b"])
+            if a is None or b is None:
+                return None
+            if e["op"] == "Add":
+                return (a[0] + b[0], a[1] + b[1])
+            if e["op"] == "Sub":
+                return (a[0] - b[0], a[1] - b[1])
+            if a[1] == 0:
+                return (a[0] * b[0], a[0] * b[1])
+            if b[1] == 0:
+                return (a[0] * b[0], a[1] * b[0])
+        return None
+
+    def len_of(e):
+        """name of the field whose len() this is"""
+        if e.get("k") == "MethodCall" and e.get("name") == "len" and e["recv"].get("k") == "Field":
+            return e["recv"]["name"]
+        return None
+    guaranteed = {}
+    for n in walk(body):
+        if n["k"] != "If" or n["cond"].get("k") != "Binary":
+            continue
+        c = n["cond"]
+        fld = len_of(c["a"])
+        l = lin(c["b"]) if fld else None
+        if not l:
+            continue
+        returns = lambda br: br is not None and any(x["k"] == "Ret" for x in walk(br)) and len(list(walk(br))) < 12
+        if c["op"] == "Lt" and returns(n["then"]):          # if len < L { return }      => len >= L afterwards
+            g = l
+        elif c["op"] == "Gt" and returns(n.get("else")):    # if len > L {..} else { return } => len >= L + 1 afterwards
+            g = (l[0] + 1, l[1])
+        else:
+            continue
+        old = guaranteed.get(fld)
+        guaranteed[fld] = g if old is None else (max(old[0], g[0]), max(old[1], g[1]))
+    # needs: let v = <fld>.len() - S  => len >= S ; then  <fld>[v - k]  => len >= S + k
+    lets = {}
+    needs = []
+    for n in walk(body):
+        if n["k"] == "Let" and n["pat"]["k"] == "PBind" and "init" in n and n["init"].get("k") == "Binary" and n["init"]["op"] == "Sub":
+            chain, e = [], n["init"]
+            while e.get("k") == "Binary" and e["op"] == "Sub":
+                chain.append(e["b"])
+                e = e["a"]
+            fld = len_of(e)
+            parts = [lin(x) for x in chain]
+            if fld and all(parts):
+                sub = (sum(q[0] for q in parts), sum(q[1] for q in parts))
+                lets[n["pat"]["name"]] = (fld, sub)
+                needs.append((fld, sub, "%s.len() - .. at line %s" % (fld, n["ln"])))
+    for n in walk(body):
+        if n["k"] == "Index" and n["base"].get("k") == "Field":
+            idx = n.get("idx") or n.get("index")
+            if idx and idx.get("k") == "Binary" and idx["op"] == "Sub" and idx["a"].get("k") == "Path" and res_name(idx["a"]) in lets and lin(idx["b"]):
+                fld, sub = lets[res_name(idx["a"])]
+                if fld == n["base"]["name"]:
+                    k = lin(idx["b"])
+                    needs.append((fld, (sub[0] + k[0], sub[1] + k[1]), "%s[%s - %d] at line %s" % (fld, res_name(idx["a"]), k[0], n["ln"])))
+    if len(needs) < 4 or set(guaranteed) != {"stack", "terms"}:
+        raise AnchorLost("reduce_term: guards %s, needs %d" % (guaranteed, len(needs)))
+    for i, (fld, need, what) in enumerate(sorted(set(needs))):
+        g = guaranteed[fld]
+        R.ob("C17:reduce_term:guard-covers:%s>=%d+%d*arity" % (fld, need[0], need[1]), g[0] >= need[0] and g[1] >= need[1],
+             "reduce_term uses %s, which needs self.%s.len() >= %d + %d*arity, but the early returns in front of it only establish >= %d + %d*arity: "
+             "with `|` declared as an operator, the clause `foo(|).` makes the parser index below the start of its term stack and the process panics"
+             % (what, fld, need[0], need[1], g[0], g[1]), F.where(fn[0]))
+
+
+def functor_arity_checked(F, R):
+    """A functor cell holds its arity in 8 bits. The reader's term writer (read.rs, TermWriter::write_term_to_heap) builds
+    a functor cell for every compound of the term read, at the root and below it; each arm that does so must refuse an
+    arity above MAX_ARITY first — otherwise the arity wraps and read_term silently returns another term
+    (x(f(0,..,299)) read as x(f(0,..,43)))."""
+    from .core import matches_in
+    fn = [p for p, it in F.items.items() if p.endswith("::write_term_to_heap") and it["file"] == "src/read.rs" and it["kind"] == "AssocFn"]
+    if len(fn) != 1:
+        raise AnchorLost("TermWriter::write_term_to_heap (%d)" % len(fn))
+    body = F.hir(fn[0])["body"]
+    n = 0
+    for m in matches_in(body, src=None):
+        for arm in m["arms"]:
+            if not any((res_name(l) or "").endswith("TermRef::Clause") for l in walk(arm["pat"]) if isinstance(l, dict)):
+                continue
+            n += 1
+            root = any((res_name(l) or "").endswith("Level::Root") for l in walk(arm["pat"]) if isinstance(l, dict))
+            checked = any(x["k"] == "If" and any((res_name(y) or "").endswith("MAX_ARITY") for y in walk(x["cond"]))
+                          and any((res_name(y) or "").endswith("ExceededMaxArity") for y in walk(x["then"])) for x in walk(arm["body"]))
+            R.ob("C17:term-writer:%s-compound:arity-checked-before-functor-cell" % ("root" if root else "nested"), checked,
+                 "the arm of write_term_to_heap for a %s compound (line %s) writes atom_as_cell!(name, arity) without comparing the arity with MAX_ARITY" % ("root" if root else "nested", arm["ln"]),
+                 F.where(fn[0]))
+    R.floor("term-writer arms that build a functor cell", n, 2)
+
+
+def end_of_input_and_bad_bytes_in_the_lexer(F, R):
+    """Four places where the lexer's look-ahead can fail and what must happen there (typed HIR of lexer.rs):
+    * a variable token cut short by the end of the input is still a token (the loop breaks, the error is not propagated);
+    * a '/' followed by the end of the input is returned to be read as a name token;
+    * inside a comment a decoding error does not end the scan: the two comment scanners read through comment_char, which
+      remembers the error and goes on, so that reading resumes behind the comment;
+    * scan_for_layout does not turn a decoding error into "no more layout" (.ok())."""
+    from .core import matches_in
+    L = {}
+    for name in ("variable_token", "bracketed_comment", "single_line_comment", "scan_for_layout", "comment_char"):
+        c = [p for p, it in F.items.items() if it["file"] == "src/parser/lexer.rs" and p.endswith("::" + name)]
+        if len(c) != 1 and name != "comment_char":
+            raise AnchorLost("Lexer::%s (%d)" % (name, len(c)))
+        L[name] = c[0] if c else None
+
+    def is_la(x):
+        return x["k"] == "MethodCall" and x["name"] == "lookahead_char"
+
+    def propagated_in_loop(body):
+        """lookahead_char()? inside a loop (or a closure called in one)"""
+        out = []
+        for lp in walk(body):
+            if lp["k"] not in ("Loop", "Closure"):
+                continue
+            for m in walk(lp):
+                if m["k"] == "Match" and str(m.get("src", "")).startswith("TryDesugar") and any(is_la(x) for x in walk(m["scrut"])):
+                    out.append(m["ln"])
+        return sorted(set(out))
+    vt = F.hir(L["variable_token"])["body"]
+    bad = propagated_in_loop(vt)
+    R.ob("C17:variable_token:end-of-input-ends-the-token", not bad and any(is_la(x) for x in walk(vt)),
+         "variable_token propagates the error of its look-ahead from inside the token loop (lines %s): a variable in front of the end of the input is dropped and the "
+         "partial clause reads as end_of_file" % bad, F.where(L["variable_token"]))
+    bc = F.hir(L["bracketed_comment"])["body"]
+    first = None
+    for m in matches_in(bc, src=None):
+        if any(is_la(x) for x in walk(m["scrut"])) and not str(m.get("src", "")).startswith("TryDesugar"):
+            first = m
+            break
+    returns_slash = first is not None and any(any(x["k"] == "MethodCall" and x["name"] == "return_char" for x in walk(a["body"])) and
+                                              any(x["k"] == "MethodCall" and x["name"] == "is_unexpected_eof" for x in walk(a)) for a in first["arms"])
+    R.ob("C17:bracketed_comment:slash-before-end-of-input-is-returned", returns_slash,
+         "bracketed_comment consumes '/' and then propagates the end of the input: a lone '/' at the end of the text disappears and the read answers end_of_file", F.where(L["bracketed_comment"]))
+    for name in ("single_line_comment", "bracketed_comment"):
+        b = F.hir(L[name])["body"]
+        bad = propagated_in_loop(b)
+        via = [x for x in walk(b) if x["k"] == "MethodCall" and x["name"] == "comment_char"]
+        R.ob("C17:comment:decoder-error-does-not-leave-the-comment:%s" % name, not bad and len(via) >= 1,
+             "%s reads the comment's characters with lookahead_char()? (lines %s): bytes that are not UTF-8 end the scan inside the comment and the rest of the comment is "
+             "read as program text by the next read" % (name, bad), F.where(L[name]))
+    if L["comment_char"]:
+        cc = F.hir(L["comment_char"])["body"]
+        loops_on = any(lp["k"] == "Loop" and any(is_la(x) for x in walk(lp)) for lp in walk(cc))
+        keeps = any(x["k"] == "MethodCall" and x["name"] in ("get_or_insert", "get_or_insert_with", "replace", "insert") for x in walk(cc))
+        R.ob("C17:comment_char:keeps-the-error-and-goes-on", loops_on and keeps and any(x["k"] == "MethodCall" and x["name"] == "is_unexpected_eof" for x in walk(cc)),
+             "comment_char must loop past decoding errors, remembering the first, and stop only at a character or the end of the input", F.where(L["comment_char"]))
+    sl = F.hir(L["scan_for_layout"])["body"]
+    okd = [x["ln"] for x in walk(sl) if x["k"] == "MethodCall" and x["name"] in ("ok", "unwrap_or", "unwrap_or_default") and any(is_la(y) for y in walk(x["recv"]))]
+    R.ob("C17:scan_for_layout:decoder-error-is-reported", not okd,
+         "scan_for_layout discards the error of its look-ahead (lines %s): the bytes of an invalid sequence after a blank are consumed and never reported" % okd, F.where(L["scan_for_layout"]))
